@@ -16,6 +16,7 @@ import GqlVerif.Proofs.ModuleOkInputsMore
 import GqlVerif.Proofs.ModuleOkInputsClasses
 import GqlVerif.Proofs.C01NestedW
 import GqlVerif.Proofs.C01NestedAbsW
+import GqlVerif.Proofs.C01AliasFragW
 open GqlVerif.C03
 #print axioms ok_iff_accepts
 #print axioms null_at_non_null_rejected
@@ -103,3 +104,6 @@ open GqlVerif.C03
 -- NestedAbsOp (P46)
 #print axioms GqlVerif.C01NA.nestedabs_precise_iff
 #print axioms GqlVerif.C01NA.na_precise
+-- AliasFragOp (P48)
+#print axioms GqlVerif.C01AF.aliasfrag_precise_iff
+#print axioms GqlVerif.C01AF.af_precise
